@@ -308,19 +308,67 @@ def penaltyBags (vt : VT) (strength : Rat) : List Label → List (Pair × Label)
       let rest := penaltyBags vt strength (vars ++ [aux]) r
       (tableBag Generated.Gates.spinProduct [c.1.1, c.1.2, c.2, aux] strength ++ rest.1, aux :: rest.2)
 
-/-- `make_quadratic(poly, strength, vartype)` on a fresh BQM: penalties first, then the reduced objective -/
-def makeQuadratic (vt : VT) (strength : Rat) (raw : List (List Label × Rat)) (choices : List Pair) :
+/-- `make_quadratic(poly, strength, vartype, bqm)`: the calls it makes on the model it adds to — penalties
+    first, then the reduced objective.  `reserved` = the variables that model already has (`[]` for a
+    fresh one): new product and auxiliary names avoid them too (D38 repair). -/
+def makeQuadratic (reserved : List Label) (vt : VT) (strength : Rat) (raw : List (List Label × Rat)) (choices : List Pair) :
     Option (List (PTerm Label) × BK × List Label) :=
-  match bkReduce (normPoly vt raw) (polyVars (normPoly vt raw)) choices with
+  match bkReduce (normPoly vt raw) (polyVars (normPoly vt raw) ++ reserved) choices with
   | none => none
   | some s =>
     if !s.idx.isEmpty then none else
     match objectiveBag s.reduced with
     | none => none
     | some obj =>
-      -- `variables = set().union(*poly)` plus the product variables of the reduction (D37 repair)
-      let pb := penaltyBags vt strength (polyVars (normPoly vt raw) ++ s.constraints.map (·.2)) s.constraints
+      -- `variables = set().union(*poly) | bqm.variables` plus the product variables of the reduction (D37 repair)
+      let pb := penaltyBags vt strength (polyVars (normPoly vt raw) ++ reserved ++ s.constraints.map (·.2)) s.constraints
       some (pb.1 ++ obj, s, pb.2)
+
+/-! ## `_init_quadratic_model`: `make_quadratic(poly, strength, vartype, bqm)` onto a given model -/
+
+/-- the value of a variable of the *other* vartype at the sample `x` of vartype `target`
+    (`s = 2b − 1` resp. `b = (s + 1)/2`) -/
+def convSample (target : VT) (x : Label → Rat) : Label → Rat :=
+  match target with
+  | .binary => fun l => 2 * x l - 1
+  | .spin => fun l => (x l + 1) / 2
+
+/-- `change_vartype` in closed form, as the mutator calls that rebuild the model in the `target`
+    vartype from a model of the other vartype (every variable keeps its linear entry, every interaction
+    its quadratic entry; the arithmetic as coded in C++ is C01's subject) -/
+def convBag (target : VT) (b : Bq Label) : List (PTerm Label) :=
+  match target with
+  | .binary =>
+    PTerm.const b.off
+      :: (b.lin.flatMap fun p => [PTerm.lin p.1 (2 * p.2), PTerm.const (-p.2)])
+      ++ (b.quad.flatMap fun p => [PTerm.quad p.1.1 p.1.2 (4 * p.2), PTerm.lin p.1.1 (-2 * p.2), PTerm.lin p.1.2 (-2 * p.2), PTerm.const p.2])
+  | .spin =>
+    PTerm.const b.off
+      :: (b.lin.flatMap fun p => [PTerm.lin p.1 (p.2 / 2), PTerm.const (p.2 / 2)])
+      ++ (b.quad.flatMap fun p => [PTerm.quad p.1.1 p.1.2 (p.2 / 4), PTerm.lin p.1.1 (p.2 / 4), PTerm.lin p.1.2 (p.2 / 4), PTerm.const (p.2 / 4)])
+
+/-- `bqm.change_vartype(vartype, inplace=False)` -/
+def changeVartype (b : Bq Label) (vt : VT) : Bq Label :=
+  if b.vt = vt then b else (Bq.empty vt : Bq Label).apply (convBag vt b)
+
+/-- `_init_quadratic_model(bqm, vartype, BinaryQuadraticModel)`: `none` = `ValueError` (neither given) -/
+def initQuadraticModel (g : Option (Bq Label)) (vtArg : Option VT) : Option (Bq Label × VT) :=
+  match vtArg, g with
+  | none, none => none
+  | none, some g => some (g, g.vt)
+  | some vt, none => some (Bq.empty vt, vt)
+  | some vt, some g => some (changeVartype g vt, vt)       -- `qm = qm.change_vartype(vartype, inplace=False)`
+
+/-- `make_quadratic(poly, strength, vartype, bqm)`: the penalty and objective calls go onto the (converted)
+    given model; the polynomial is read in the resulting vartype -/
+def makeQuadraticOnto (g : Option (Bq Label)) (vtArg : Option VT) (strength : Rat) (raw : List (List Label × Rat))
+    (choices : List Pair) : Option (Bq Label × VT × List (PTerm Label) × BK × List Label) :=
+  match initQuadraticModel g vtArg with
+  | none => none
+  | some (b, vt) =>
+    match makeQuadratic (b.lin.map (·.1)) vt strength raw choices with
+    | none => none
+    | some (bag, st, auxs) => some (b.apply bag, vt, bag, st, auxs)
 
 /-! ## `make_quadratic_cqm` -/
 
@@ -330,10 +378,11 @@ def prodConstraint (c : Pair × Label) : String × List (PTerm Label) :=
   ("'" ++ pyStr c.1.1 ++ "'*'" ++ pyStr c.1.2 ++ "' == '" ++ pyStr c.2 ++ "'",
    [PTerm.quad c.1.1 c.1.2 1, PTerm.lin c.1.1 0, PTerm.lin c.1.2 0, PTerm.lin c.2 (-1)])
 
-/-- `make_quadratic_cqm(poly, vartype)` on a fresh CQM: the objective bag and the product constraints (all `== 0`) -/
-def makeQuadraticCqm (vt : VT) (raw : List (List Label × Rat)) (choices : List Pair) :
+/-- `make_quadratic_cqm(poly, vartype, cqm)`: the objective bag and the product constraints (all `== 0`) it
+    adds; `reserved` = the variables of the given CQM (`[]` for a fresh one) -/
+def makeQuadraticCqm (reserved : List Label) (vt : VT) (raw : List (List Label × Rat)) (choices : List Pair) :
     Option (List (PTerm Label) × List (String × List (PTerm Label))) :=
-  match bkReduce (normPoly vt raw) (polyVars (normPoly vt raw)) choices with
+  match bkReduce (normPoly vt raw) (polyVars (normPoly vt raw) ++ reserved) choices with
   | none => none
   | some s =>
     if !s.idx.isEmpty then none else
